@@ -1,11 +1,39 @@
 /-
   C15 — Amount strings and integer amounts convert exactly.   PROPERTY THEOREMS ONLY.
   Model: MW.Model.Amount (api.StringToAmount / AmountToString as written);  Spec: MW.Spec.Amount.
+  Every theorem below is for ALL byte strings / ALL integers (no sampling); helper lemmas live in
+  MW/Lemmas/Dec*.lean and MW/Lemmas/Amount*.lean.  `example`s show that hypotheses are satisfiable.
 -/
 import MW.Model.Amount
 import MW.Spec.Amount
+import MW.Lemmas.AmountParse
+import MW.Lemmas.AmountFormat
 namespace MW.Props.C15
 open MW MW.Dec
+
+/-! ## 1. parsing: the model accepts exactly the spec's numerals, with exactly the spec's value -/
+
+/-- for every byte string the model of `StringToAmount` succeeds iff the spec accepts, with the same value.
+    (In particular the int64 range check of ParseInt and the MaxMass check never reject a string whose
+    value is within the supply, and never let one through that is not.) -/
+theorem parse_accepts_iff (s : Bytes) : (Model.Amount.parse s).toOption = Spec.Amount.parse s :=
+  Model.Amount.parse_toOption s
+
+/-- the same, as an iff on results -/
+theorem parse_ok_iff (s : Bytes) (v : Nat) : Model.Amount.parse s = .ok v ↔ Spec.Amount.parse s = some v := by
+  rw [← parse_accepts_iff]
+  cases Model.Amount.parse s with
+  | ok a => simp [Except.toOption]
+  | error e => simp [Except.toOption]
+
+/-- and on errors: the model fails (with whatever error) iff the spec rejects -/
+theorem parse_error_iff (s : Bytes) : (∃ e, Model.Amount.parse s = .error e) ↔ Spec.Amount.parse s = none := by
+  rw [← parse_accepts_iff]
+  cases Model.Amount.parse s with
+  | ok a => simp [Except.toOption]
+  | error e => simp [Except.toOption]
+
+/-! ## 2. formatting: on [0, maxAmount] the model prints the spec's string; outside it fails -/
 
 /-- out-of-range integers are rejected by formatting -/
 theorem format_rejects (m : Int) (h : m < 0 ∨ m > (Model.Amount.maxAmount : Int)) :
@@ -15,5 +43,181 @@ theorem format_rejects (m : Int) (h : m < 0 ∨ m > (Model.Amount.maxAmount : In
   · have : ¬ m > (Model.Amount.maxAmount : Int) := by omega
     simp [this, h]
   · simp [h]
+
+example : (-1 : Int) < 0 ∨ (-1 : Int) > (Model.Amount.maxAmount : Int) := Or.inl (by decide)
+example : (20643840000000001 : Int) < 0 ∨ (20643840000000001 : Int) > (Model.Amount.maxAmount : Int) :=
+  Or.inr (by decide)
+
+/-- in-range integers are printed as the spec's shortest plain decimal -/
+theorem format_spec (m : Int) (h0 : 0 ≤ m) (h1 : m ≤ (Model.Amount.maxAmount : Int)) :
+    Model.Amount.format m = .ok (Spec.Amount.format m.toNat) :=
+  Model.Amount.format_in_range h0 h1
+
+example : (0 : Int) ≤ 150000000 ∧ (150000000 : Int) ≤ (Model.Amount.maxAmount : Int) := by decide
+
+/-! ## 3. round trip -/
+
+/-- spec level: parsing the formatted amount gives the amount back -/
+theorem spec_parse_format (m : Nat) (h : m ≤ Spec.Amount.maxAmount) :
+    Spec.Amount.parse (Spec.Amount.format m) = some m :=
+  Spec.Amount.parse_format h
+
+/-- model level: `StringToAmount` of the formatted string is the amount -/
+theorem parse_format (m : Nat) (h : m ≤ Spec.Amount.maxAmount) :
+    Model.Amount.parse (Spec.Amount.format m) = .ok m :=
+  (parse_ok_iff _ _).mpr (Spec.Amount.parse_format h)
+
+/-- model level, both directions composed: `StringToAmount(AmountToString(m)) = m` -/
+theorem parse_format_model (m : Int) (h0 : 0 ≤ m) (h1 : m ≤ (Model.Amount.maxAmount : Int)) :
+    ∃ s, Model.Amount.format m = .ok s ∧ Model.Amount.parse s = .ok m.toNat := by
+  refine ⟨_, format_spec m h0 h1, parse_format _ ?_⟩
+  have : Spec.Amount.maxAmount = Model.Amount.maxAmount := rfl
+  omega
+
+example : (12345678 : Nat) ≤ Spec.Amount.maxAmount := by decide
+
+/-! ## 4. the formatted string is canonical and (almost) the shortest accepted spelling -/
+
+/-- structure of the output: the canonical rendering of m / 10^8, then nothing (iff m is a whole number of
+    MASS) or a point followed by 1…8 digits the last of which is not `0` -/
+theorem format_canonical (m : Nat) :
+    ∃ ip fp : Bytes, ip = render (m / 10 ^ 8) ∧ fp.all isDigit = true ∧ fp.length ≤ 8 ∧
+      (∀ init b, fp = init ++ [b] → b ≠ c0) ∧
+      ((fp = [] ∧ m % 10 ^ 8 = 0 ∧ Spec.Amount.format m = ip) ∨
+       (fp ≠ [] ∧ m % 10 ^ 8 ≠ 0 ∧ Spec.Amount.format m = ip ++ dot :: fp)) := by
+  obtain ⟨ip, fp, h1, _, h3, h4, h5, h6⟩ := Spec.Amount.format_structure m
+  exact ⟨ip, fp, h1, h3, h4, h5, h6⟩
+
+/-- no sign (nor any byte other than digits and the point), at most one point -/
+theorem format_no_sign (m : Nat) :
+    (∀ b ∈ Spec.Amount.format m, isDigit b = true ∨ b = dot) ∧ (Spec.Amount.format m).count dot ≤ 1 :=
+  Spec.Amount.format_bytes m
+
+/-- starts with a digit: not empty, no bare leading point -/
+theorem format_head_digit (m : Nat) : ∃ d rest, Spec.Amount.format m = d :: rest ∧ isDigit d = true :=
+  Spec.Amount.format_head_digit m
+
+/-- no leading zero except a single `0` integer part -/
+theorem format_no_leading_zero (m : Nat) (rest : Bytes) (h : Spec.Amount.format m = c0 :: rest) :
+    rest = [] ∨ ∃ r', rest = dot :: r' :=
+  Spec.Amount.format_no_leading_zero h
+
+example : Spec.Amount.format 0 = c0 :: [] := by
+  rw [Spec.Amount.format_eq]; exact render_zero
+
+/-- ends with a digit (no bare trailing point); with a point present the last digit is not `0` -/
+theorem format_no_trailing_zero (m : Nat) :
+    ∃ init b, Spec.Amount.format m = init ++ [b] ∧ isDigit b = true ∧
+      (dot ∈ Spec.Amount.format m → b ≠ c0) :=
+  Spec.Amount.format_last m
+
+/-- The naive minimality statement "no accepted spelling of m is shorter than format m". It is FALSE,
+    because the spec (like the code) accepts `.5`, which is shorter than `0.5`. Kept so that it stays
+    type-checked; refuted below; the true statements follow. -/
+def format_shortest_full : Prop :=
+  ∀ (s : Bytes) (m : Nat), Spec.Amount.parse s = some m → (Spec.Amount.format m).length ≤ s.length
+
+/-- refutation of the naive statement by the witness `".5"` ↦ 50000000 ↦ `"0.5"` -/
+theorem format_shortest_full_false : ¬ format_shortest_full := by
+  intro h
+  have hp : Spec.Amount.parse [dot, 53] = some 50000000 := by decide
+  have := h [dot, 53] 50000000 hp
+  rw [Spec.Amount.format_eq] at this
+  have e1 : (50000000 : Nat) % 10 ^ 8 = 50000000 := by decide
+  have e2 : (50000000 : Nat) / 10 ^ 8 = 0 := by decide
+  rw [e1, e2, if_neg (by decide), render_zero] at this
+  revert this
+  decide
+
+/-- minimality among spellings with an integer digit: every accepted string that does not start with the
+    point is at least as long as the formatted string -/
+theorem format_shortest (s : Bytes) (m : Nat) (h : Spec.Amount.parse s = some m)
+    (hd : ∀ rest, s ≠ dot :: rest) : (Spec.Amount.format m).length ≤ s.length :=
+  (Spec.Amount.format_length_le_succ h).2 hd
+
+/-- and it is the ONLY spelling of minimal length among those (so the output is canonical in the strict
+    sense: one amount, one string) -/
+theorem format_unique_shortest (s : Bytes) (m : Nat) (h : Spec.Amount.parse s = some m)
+    (hd : ∀ rest, s ≠ dot :: rest) (hl : s.length ≤ (Spec.Amount.format m).length) :
+    s = Spec.Amount.format m :=
+  Spec.Amount.format_unique_shortest h hd hl
+
+-- hypotheses of `format_unique_shortest` are met by "1.5" / 150000000 (and the conclusion is then "1.5" = format)
+example : Spec.Amount.parse [49, dot, 53] = some 150000000 ∧ (∀ rest, ([49, dot, 53] : Bytes) ≠ dot :: rest) ∧
+    ([49, dot, 53] : Bytes).length ≤ (Spec.Amount.format 150000000).length := by
+  refine ⟨by decide, fun rest h => by injection h with h1 _; exact absurd h1 (by decide), ?_⟩
+  rw [Spec.Amount.format_eq]
+  have e1 : (150000000 : Nat) % 10 ^ 8 = 50000000 := by decide
+  have e2 : (150000000 : Nat) / 10 ^ 8 = 1 := by decide
+  rw [e1, e2, if_neg (by decide), render_lt (by decide)]
+  decide
+
+/-- and in general a spelling can be shorter by at most the one omitted leading `0` -/
+theorem format_shortest_slack (s : Bytes) (m : Nat) (h : Spec.Amount.parse s = some m) :
+    (Spec.Amount.format m).length ≤ s.length + 1 :=
+  (Spec.Amount.format_length_le_succ h).1
+
+example : Spec.Amount.parse [49, dot, 53, 48] = some 150000000 ∧ ∀ rest, [49, dot, 53, 48] ≠ dot :: rest :=
+  ⟨by decide, fun rest h => by injection h with h1 _; exact absurd h1 (by decide)⟩
+
+/-! ## 5. spec sanity: what can never be accepted (this gives `parse_accepts_iff` its meaning) -/
+
+/-- any byte other than a digit or the point (`+`, `-`, `e`, `_`, space, NUL, UTF-8 …) ⇒ rejected -/
+theorem spec_rejects_foreign_byte (s : Bytes) (b : UInt8) (hb : b ∈ s) (h1 : isDigit b = false)
+    (h2 : b ≠ dot) : Spec.Amount.parse s = none :=
+  Spec.Amount.parse_none_of_foreign_byte hb h1 h2
+
+example : (43 : UInt8) ∈ ([49, dot, 43, 53] : Bytes) ∧ isDigit 43 = false ∧ (43 : UInt8) ≠ dot := by decide
+
+/-- more than one point ⇒ rejected -/
+theorem spec_rejects_two_points (s : Bytes) (h : 2 ≤ s.count dot) : Spec.Amount.parse s = none :=
+  Spec.Amount.parse_none_of_two_points h
+
+example : 2 ≤ ([49, dot, dot, 50] : Bytes).count dot := by decide
+
+/-- no digit at all (`""`, `"."`) ⇒ rejected -/
+theorem spec_rejects_no_digit (s : Bytes) (h : ∀ b ∈ s, isDigit b = false) : Spec.Amount.parse s = none :=
+  Spec.Amount.parse_none_of_no_digit h
+
+example : ∀ b ∈ ([dot] : Bytes), isDigit b = false := by decide
+
+/-- the same three facts for the MODEL of the code (consequence of 1.) -/
+theorem model_rejects (s : Bytes)
+    (h : (∃ b ∈ s, isDigit b = false ∧ b ≠ dot) ∨ 2 ≤ s.count dot ∨ (∀ b ∈ s, isDigit b = false)) :
+    ∃ e, Model.Amount.parse s = .error e := by
+  rw [parse_error_iff]
+  rcases h with ⟨b, hb, h1, h2⟩ | h | h
+  · exact spec_rejects_foreign_byte s b hb h1 h2
+  · exact spec_rejects_two_points s h
+  · exact spec_rejects_no_digit s h
+
+example : (∃ b ∈ ([45, 49] : Bytes), isDigit b = false ∧ b ≠ dot) ∨ 2 ≤ ([45, 49] : Bytes).count dot ∨
+    (∀ b ∈ ([45, 49] : Bytes), isDigit b = false) := Or.inl ⟨45, by decide, by decide, by decide⟩
+
+/-- an accepted string is `i` or `i.f` (digit strings, at least one digit), its value is within the supply
+    and is EXACTLY (the number written) × 10^8:  v · 10^|f| = (integer written i++f) · 10^8 -/
+theorem spec_value_exact (s : Bytes) (v : Nat) (h : Spec.Amount.parse s = some v) :
+    ∃ ip fp : Bytes, (s = ip ∧ fp = [] ∨ s = ip ++ dot :: fp) ∧ ip.all isDigit = true ∧
+      fp.all isDigit = true ∧ (ip ≠ [] ∨ fp ≠ []) ∧ (trimRight0 fp).length ≤ 8 ∧
+      v ≤ Spec.Amount.maxAmount ∧ v * 10 ^ fp.length = ofDigits (ip ++ fp) * 10 ^ 8 := by
+  rcases Spec.Amount.parse_some_shape h with ⟨hs, hne, hv⟩ | ⟨ip, fp, e, hip, hfp, hne, hv⟩
+  · have h2 := Spec.Amount.value_eq_some.mp hv
+    exact ⟨s, [], Or.inl ⟨rfl, rfl⟩, hs, rfl, Or.inl hne, h2.1, h2.2.2, Spec.Amount.value_exact hv⟩
+  · have h2 := Spec.Amount.value_eq_some.mp hv
+    exact ⟨ip, fp, Or.inr e, hip, hfp, hne, h2.1, h2.2.2, Spec.Amount.value_exact hv⟩
+
+/-! ## 6. tie to the regenerated constants -/
+
+/-- the compiled-in `massutil.MaxAmount()` is MaxMass × MaxwellPerMass, MaxwellPerMass is 10^8 (eight
+    fractional digits), and the two `AmountToString` copies are textually identical; a change of any of
+    these in the repository changes MW/Gen/Amount.lean and breaks this theorem (hence the build) -/
+theorem gen_tie :
+    MW.Gen.Amount.maxAmountCompiled = MW.Gen.Amount.maxMass * MW.Gen.Amount.maxwellPerMass ∧
+    MW.Gen.Amount.maxwellPerMass = 10 ^ 8 ∧
+    MW.Gen.Amount.formatCopiesEqual = true ∧
+    Model.Amount.maxAmount = MW.Gen.Amount.maxAmountCompiled ∧
+    Spec.Amount.maxAmount = MW.Gen.Amount.maxAmountCompiled ∧
+    Model.Amount.maxAmount ≤ Model.Amount.int64Max := by
+  decide
 
 end MW.Props.C15
